@@ -28,6 +28,11 @@ type ival struct {
 	h    interface{}
 }
 
+type elemAddr struct {
+	base interface{}
+	idx  int64
+}
+
 type outsideFragment struct{ msg string }
 
 func outsidef(format string, a ...interface{}) { panic(outsideFragment{fmt.Sprintf(format, a...)}) }
@@ -50,6 +55,10 @@ type interp struct {
 	// only for rules that merely compare a bound random draw with a constant
 	floatConsts bool
 	env         map[ssa.Value]ival // environment of the outermost frame (for hooks)
+	// element memory: when non-nil, IndexAddr yields addresses {base handle, index}; stores/loads go through elemMem,
+	// unknown elements through loadElem (nil pointer when that declines)
+	elemMem  map[elemAddr]ival
+	loadElem func(a elemAddr) (ival, bool)
 	// loadAddr, when set, is consulted first for loads (gives access to the base pointer's value)
 	loadAddr func(u *ssa.UnOp, env map[ssa.Value]ival) (ival, bool)
 }
@@ -160,6 +169,21 @@ func (it *interp) Run(fn *ssa.Function, b *ssa.BasicBlock, idx int, env map[ssa.
 					a := it.val(x.X, env)
 					env[x] = ival{kind: 'i', i: wrapInt(-a.i, x.Type())}
 				case token.MUL:
+					if a, ok := env[x.X]; ok && a.kind == 'a' && it.elemMem != nil {
+						key := a.h.(elemAddr)
+						if v, ok := it.elemMem[key]; ok {
+							env[x] = v
+							break
+						}
+						if it.loadElem != nil {
+							if v, ok := it.loadElem(key); ok {
+								env[x] = v
+								break
+							}
+						}
+						env[x] = ival{kind: 'p', h: nil}
+						break
+					}
 					if it.loadAddr != nil {
 						if v, ok := it.loadAddr(x, env); ok {
 							env[x] = v
@@ -199,15 +223,37 @@ func (it *interp) Run(fn *ssa.Function, b *ssa.BasicBlock, idx int, env map[ssa.
 				}
 			case *ssa.ChangeType:
 				env[x] = it.val(x.X, env)
-			case *ssa.FieldAddr, *ssa.Field, *ssa.IndexAddr:
+			case *ssa.IndexAddr:
+				if it.elemMem != nil {
+					base := it.val(x.X, env)
+					idx := it.val(x.Index, env)
+					if idx.kind == 'i' {
+						env[x] = ival{kind: 'a', h: elemAddr{base.h, idx.i}}
+						break
+					}
+				}
+				env[x] = ival{kind: 'p', h: x}
+			case *ssa.Slice:
+				env[x] = it.val(x.X, env)
+			case *ssa.FieldAddr, *ssa.Field:
 				env[x.(ssa.Value)] = ival{kind: 'p', h: x}
 			case *ssa.Alloc:
+				if it.elemMem != nil {
+					if _, isArr := x.Type().Underlying().(*types.Pointer).Elem().Underlying().(*types.Array); isArr {
+						env[x] = ival{kind: 'p', h: x}
+						break
+					}
+				}
 				cell := &ival{kind: 'i'}
 				if bt, ok := x.Type().Underlying().(*types.Pointer).Elem().Underlying().(*types.Basic); ok && bt.Info()&types.IsBoolean != 0 {
 					cell.kind = 'b'
 				}
 				env[x] = ival{kind: 'c', h: cell}
 			case *ssa.Store:
+				if a, ok := env[x.Addr]; ok && a.kind == 'a' && it.elemMem != nil {
+					it.elemMem[a.h.(elemAddr)] = it.val(x.Val, env)
+					break
+				}
 				if al, ok := x.Addr.(*ssa.Alloc); ok {
 					if c, ok := env[al]; ok && c.kind == 'c' {
 						*(c.h.(*ival)) = it.val(x.Val, env)
